@@ -40,6 +40,8 @@ func c05Scenarios() []scenario {
 		add(c05p{kind: "slow", k: k})
 	}
 	add(c05p{kind: "slow", k: 8, perRead: 3})
+	add(c05p{kind: "slow", k: 13, resize: true})
+	add(c05p{kind: "slow", k: 23, resize: true})
 	for _, k := range []int{1, 2, 3} {
 		add(c05p{kind: "free", k: k})
 		add(c05p{kind: "free", k: k, posters: 2, posts: 2})
@@ -185,6 +187,15 @@ func c05prog(ps string, res *result) func() {
 			verifrt.Quiesce()
 			verifrt.Window()
 			producersLeft = 0
+			if p.resize {
+				// the terminal is resized while the application still is not polling
+				producersLeft = 1
+				spawn("terminal-resize", func() {
+					r.tty.w, r.tty.h = 6, 3
+					r.tty.notify()
+					doneProducing()
+				})
+			}
 		} else {
 			verifrt.Window()
 			spawn("feeder", func() { feed(); doneProducing() })
